@@ -90,6 +90,23 @@ class Out:
         self.gens = gens or []
 
 
+def _concolic_false(runs, cname, tag):
+    """-> the input values of the first concolic run at which claim `cname` is false, else None"""
+    from . import concolic as _cc
+
+    for vals, C2, o2 in runs:
+        if cname not in o2.claims:
+            continue
+        try:
+            if not _cc.holds(_t(o2.claims[cname]), C2.shadow, tol=1e-6):
+                return dict(vals)
+        except BaseException as e:  # noqa
+            if isinstance(e, (KeyboardInterrupt, SystemExit)):
+                raise
+            continue
+    return None
+
+
 def run_job(name, run, *, timeout_ms=60000, max_paths=20000, prune=True, prune_timeout_ms=3000,
             twin=True, watch=(), second=False, feas_timeout_ms=15000, witness=None):
     """witness: optional (sampler(rng) -> {name: float}, n): concrete points run concolically
@@ -111,6 +128,7 @@ def run_job(name, run, *, timeout_ms=60000, max_paths=20000, prune=True, prune_t
                 paths.append((C, out, dict(tr.locals)))
         res["functions"] = sorted(tr.funcs)
         witnessed = set()
+        conc_runs = {}  # path index -> list of (values, concolic ctx, concolic Out)
         if witness is not None and paths:
             import numpy as _np
 
@@ -119,7 +137,7 @@ def run_job(name, run, *, timeout_ms=60000, max_paths=20000, prune=True, prune_t
             sampler, nw = witness
             rng = _np.random.default_rng(12345)
             for _k in range(nw):
-                if len(witnessed) == len(paths):
+                if len(witnessed) == len(paths) and _k >= max(8, nw // 2):
                     break
                 try:
                     vals = sampler(rng)
@@ -131,10 +149,13 @@ def run_job(name, run, *, timeout_ms=60000, max_paths=20000, prune=True, prune_t
                         raise
                     continue
                 for pi, (C, _out, _l) in enumerate(paths):
-                    if pi in witnessed or len(C.decisions) != len(C2.decisions):
+                    if len(C.decisions) != len(C2.decisions):
                         continue
                     if all(a[0].eq(b[0]) and a[1] == b[1] for a, b in zip(C.decisions, C2.decisions)):
                         witnessed.add(pi)
+                        if len(conc_runs.setdefault(pi, [])) < 150:
+                            conc_runs[pi].append((dict(vals), C2, _o2))
+                        break
             res["witnessed_paths"] = len(witnessed)
         for pi, (C, out, _loc) in enumerate(paths):
             Ctx.current = C
@@ -194,6 +215,13 @@ def run_job(name, run, *, timeout_ms=60000, max_paths=20000, prune=True, prune_t
             # 3. claims
             for cname, cf in out.claims.items():
                 cf = _t(cf)
+                pre = _concolic_false(conc_runs.get(pi, ()), cname, tag)
+                if pre is not None:
+                    # the claim is false at a concrete point that follows this path through the encoding:
+                    # that point IS a satisfying assignment of the negated claim; no solver search needed
+                    verdicts.append({"obligation": f"{tag}/{cname}", "verdict": "sat", "time_s": 0.0, "kind": "claim", "model": pre,
+                                     "reason": "claim false at a concrete point run through the encoding (concolic); handed to the replay like a solver model"})
+                    continue
                 r, dt, mdl = solve.check(C, cf, timeout_ms, inputs=inputs, cons=cons + proved)
                 v = {"obligation": f"{tag}/{cname}", "verdict": r, "time_s": round(dt, 3), "kind": "claim"}
                 if mdl is not None:
@@ -202,6 +230,33 @@ def run_job(name, run, *, timeout_ms=60000, max_paths=20000, prune=True, prune_t
                     r2 = solve.second_opinion(cons + proved, z3.Not(cf), timeout_s=max(10, timeout_ms // 1000))
                     v["second_solver"] = r2
                 verdicts.append(v)
+            # undecided claims: try to falsify them at the concrete points that follow this path through
+            # the encoding; a false claim there is handed to the replay like a solver model
+            if pi in conc_runs:
+                from . import concolic as _cc
+
+                und = [v for v in verdicts if v["obligation"].startswith(tag + "/") and v["kind"] in ("claim",) and v["verdict"] not in ("sat", "unsat")]
+                for v in und:
+                    cname = v["obligation"][len(tag) + 1:]
+                    for vals, C2, o2 in conc_runs[pi]:
+                        f = None
+                        if cname in o2.claims:
+                            f = _t(o2.claims[cname])
+                        else:
+                            for lem in o2.lemmas:
+                                if isinstance(lem, GenLemma) and cname.endswith(lem.name):
+                                    f = _t(lem.goal)
+                        if f is None:
+                            continue
+                        try:
+                            ok_ = _cc.holds(f, C2.shadow, tol=1e-6)
+                        except BaseException:  # noqa
+                            continue
+                        if not ok_:
+                            v["verdict"] = "sat"
+                            v["model"] = {k: x for k, x in vals.items()}
+                            v["reason"] = "solver undecided; claim false at a concrete point run through the encoding (concolic)"
+                            break
             for ev in C.events:
                 res["events"].append({"path": pi, "event": list(ev)})
             if out.info:
